@@ -162,3 +162,48 @@ func fieldChain(v ssa.Value) string {
 	}
 	return strings.Join(names, ".")
 }
+
+// c10LabelsTotal: the helpers that move label sets between the drivers and the stored objects copy every
+// entry: the copy loop stores on every path through its body (no entry — an empty value, say — is left out).
+func c10LabelsTotal(w *World, r *Report) {
+	fn := w.Fn("pkg/storage/driver", "labels.fromMap")
+	if fn == nil {
+		r.Unk("C10/LABELS", "fromMap/anchor", "-", "labels.fromMap not found")
+		return
+	}
+	r.Fn(FuncName(fn))
+	// the map range and the writes (map updates here or in the set helper)
+	var writes []ssa.Instruction
+	for _, b := range fn.Blocks {
+		for _, in := range b.Instrs {
+			switch x := in.(type) {
+			case *ssa.MapUpdate:
+				writes = append(writes, x)
+			case ssa.CallInstruction:
+				if f, _ := calleeOf(x.Common()); f != nil && strings.HasSuffix(FuncName(f), "labels).set") {
+					writes = append(writes, x)
+				}
+			}
+		}
+	}
+	loops := mapLoops(fn)
+	if len(loops) != 1 || len(writes) == 0 {
+		r.Bad("C10/LABELS", "fromMap/copies-every-entry", w.Pos(fn.Pos()), "fromMap is no longer a plain copy loop over its argument")
+		return
+	}
+	g := FullGraph(fn)
+	l := loops[0]
+	hdr := l.Header
+	var body *ssa.BasicBlock
+	for _, sb := range hdr.Succs {
+		if l.Body[sb] {
+			body = sb
+		}
+	}
+	if body == nil {
+		r.Bad("C10/LABELS", "fromMap/copies-every-entry", w.Pos(fn.Pos()), "fromMap's loop has no body")
+		return
+	}
+	ex, _ := g.PathExists(IPos{body, -1}, posOf(l.Next), avoidInstrs(writes...))
+	r.Check(!ex, "C10/LABELS", "fromMap/copies-every-entry", w.Pos(fn.Pos()), "every entry of the given map is stored", "an entry of the given label map can be skipped: labels written through the Kubernetes backends differ from what was given (the memory backend keeps them)")
+}
